@@ -111,6 +111,10 @@ Qed.
 Lemma lnup_split sl : 1 <= lnup sl -> exists l1 l2, sl = l1 ++ None :: l2.
 Proof. intros H. apply lnup_pos_in in H. apply in_split in H. exact H. Qed.
 
+Lemma Forall2_cons_inv_r {A B} (P : A -> B -> Prop) l b l' :
+  Forall2 P l (b :: l') -> exists a l0, l = a :: l0 /\ P a b /\ Forall2 P l0 l'.
+Proof. intros H. inversion H; subst. eauto. Qed.
+
 (** * the grafted labelled tree *)
 Definition graft_wrap (n nn ne ne2 : nat) (name : string) (ei : einfo) (ch : ltree) : ltree :=
   LNode nn EmptyString [] [Some (ne, e_one, LNode n name [] [None]); None; Some (ne2, e_half ei, ch)].
@@ -204,4 +208,369 @@ Section Graft.
       + intros y Hy. destruct (Hn y Hy) as (X & Y & Z). apply GF_node_same; assumption.
       + intros y Hy. destruct (He y) as [X Y]; [right; exact Hy|]. apply GF_edge_same; assumption.
   Qed.
+
+  Lemma GF_disj_n : l <> r /\
+    (forall y, In y (sids l1) \/ In y (sids l2) \/ In y (sids (s1 ++ None :: s2)) -> In y (lids sub) /\ y <> l /\ y <> r).
+  Proof.
+    destruct GF_sub_nd as [Nd _]. pose proof GF_lids_sub as E. rewrite E in Nd.
+    apply NoDup_cons_iff in Nd. destruct Nd as [A1 A2]. apply NoDup_app_iff in A2. destruct A2 as (B1 & B2 & B3).
+    apply NoDup_app_iff in B2. destruct B2 as (C1 & C2 & C3). apply NoDup_cons_iff in C1. destruct C1 as [D1 D2].
+    split.
+    - intros E0. apply A1. rewrite E0. apply in_or_app. right. apply in_or_app. left. left. reflexivity.
+    - intros y Hy. split; [rewrite E; right; rewrite !in_app_iff; cbn [In]; tauto|]. split; intros ->.
+      + apply A1. rewrite !in_app_iff. cbn [In]. tauto.
+      + destruct Hy as [Hy|[Hy|Hy]].
+        * apply (B3 r Hy). apply in_or_app. left. left. reflexivity.
+        * apply (C3 r); [left; reflexivity|exact Hy].
+        * exact (D1 Hy).
+  Qed.
+
+  Lemma GF_disj_e : forall y, In y (seids l1) \/ In y (seids l2) \/ In y (seids (s1 ++ None :: s2)) -> In y (leids sub) /\ y <> e.
+  Proof.
+    destruct GF_sub_nd as [_ Nd]. pose proof GF_leids_sub as E. rewrite E in Nd.
+    apply NoDup_app_iff in Nd. destruct Nd as (B1 & B2 & B3). apply NoDup_cons_iff in B2. destruct B2 as [C1 C2].
+    intros y Hy. split; [rewrite E; rewrite !in_app_iff; cbn [In]; rewrite in_app_iff; tauto|]. intros ->.
+    destruct Hy as [Hy|[Hy|Hy]].
+    - apply (B3 e Hy). left. reflexivity.
+    - apply C1. apply in_or_app. right. exact Hy.
+    - apply C1. apply in_or_app. left. exact Hy.
+  Qed.
+
+  Lemma GF_shape_new : shape true h' p new.
+  Proof.
+    pose proof GF_sub_shape as Sh. unfold sub in Sh. apply shape_unfold in Sh. destruct Sh as [hl0 (A1 & A2 & A3 & A4 & A5)].
+    rewrite Hl in A1. injection A1 as <-.
+    unfold sl in A5. apply Forall2_app_inv_r in A5. destruct A5 as (c1 & c2' & F1 & F2 & Ec).
+    apply Forall2_cons_inv_r in F2. destruct F2 as (ce & c2 & Ec2 & Ok0 & F2'). rewrite Ec2 in Ec. clear Ec2 c2'.
+    destruct ce as [r0 e0]. cbn [slot_ok fst snd] in Ok0. destruct Ok0 as (P0 & Ee & Er & [ed (E1 & E2 & E3 & E4)] & Shc).
+    subst e0. unfold ch in Er. cbn [lid] in Er. subst r0.
+    pose proof (Forall2_length' _ _ _ F1) as Lc1.
+    pose proof Shc as Shc0. unfold ch in Shc. apply shape_unfold in Shc. destruct Shc as [hr0 (B1 & B2 & B3 & B4 & B5)].
+    rewrite Hr in B1. injection B1 as <-.
+    apply Forall2_app_inv_r in B5. destruct B5 as (d1 & d2' & G1 & G2 & Ed).
+    apply Forall2_cons_inv_r in G2. destruct G2 as (de & d2 & Ed2 & Ok1 & G2'). rewrite Ed2 in Ed. clear Ed2 d2'.
+    cbn [slot_ok] in Ok1. injection Ok1 as <-.
+    pose proof (Forall2_length' _ _ _ G1) as Ld1.
+    destruct GF_disj_n as [Nlr Dn]. pose proof GF_disj_e as De.
+    (* lookups in the new heap *)
+    assert (Ll : l < hnextn h) by (apply GF_old_node, GF_sub_in_n; rewrite GF_lids_sub; left; reflexivity).
+    assert (Lr : r < hnextn h).
+    { apply GF_old_node, GF_sub_in_n. rewrite GF_lids_sub. right. apply in_or_app. right. left. reflexivity. }
+    assert (Le : e < hnexte h).
+    { apply GF_old_edge, GF_sub_in_e. rewrite GF_leids_sub. apply in_or_app. right. left. reflexivity. }
+    assert (Nl' : alookup l (hnodes h') = Some (mkHN (hname hl) (hcom hl) (put_nth (length l1) nn (hneigh hl)) (hbr hl))).
+    { rewrite (gd_nodes _ _ _ _ _ _ _ _ _ _ _ D). destruct (Nat.eqb_spec l (hnextn h)); [lia|]. destruct (Nat.eqb_spec l (S (hnextn h))); [lia|].
+      rewrite Nat.eqb_refl. reflexivity. }
+    assert (Nr' : alookup r (hnodes h') = Some (mkHN (hname hr) (hcom hr) (put_nth (length s1) nn (hneigh hr)) (put_nth (length s1) ne2 (hbr hr)))).
+    { rewrite (gd_nodes _ _ _ _ _ _ _ _ _ _ _ D). destruct (Nat.eqb_spec r (hnextn h)); [lia|]. destruct (Nat.eqb_spec r (S (hnextn h))); [lia|].
+      destruct (Nat.eqb_spec r l); [congruence|]. rewrite Nat.eqb_refl. reflexivity. }
+    assert (Nn' : alookup n (hnodes h') = Some (mkHN name [] [nn] [ne])).
+    { rewrite (gd_nodes _ _ _ _ _ _ _ _ _ _ _ D). unfold n. rewrite Nat.eqb_refl. reflexivity. }
+    assert (Nnn' : alookup nn (hnodes h') = Some (mkHN EmptyString [] [n; l; r] [ne; e; ne2])).
+    { rewrite (gd_nodes _ _ _ _ _ _ _ _ _ _ _ D). unfold nn. destruct (Nat.eqb_spec (S (hnextn h)) (hnextn h)); [lia|]. rewrite Nat.eqb_refl. reflexivity. }
+    assert (Ee' : alookup e (hedges h') = Some (mkHE l nn (halve ei))).
+    { rewrite (gd_edges _ _ _ _ _ _ _ _ _ _ _ D), Nat.eqb_refl. reflexivity. }
+    assert (Ene' : alookup ne (hedges h') = Some (mkHE nn n e_one)).
+    { rewrite (gd_edges _ _ _ _ _ _ _ _ _ _ _ D). unfold ne. destruct (Nat.eqb_spec (hnexte h) e); [lia|]. rewrite Nat.eqb_refl. reflexivity. }
+    assert (Ene2' : alookup ne2 (hedges h') = Some (mkHE nn r (e_half ei))).
+    { rewrite (gd_edges _ _ _ _ _ _ _ _ _ _ _ D). unfold ne2. destruct (Nat.eqb_spec (S (hnexte h)) e); [lia|].
+      destruct (Nat.eqb_spec (S (hnexte h)) (hnexte h)); [lia|]. rewrite Nat.eqb_refl. reflexivity. }
+    (* the slots of l and r in the new heap *)
+    assert (Sl' : combine (put_nth (length l1) nn (hneigh hl)) (hbr hl) = c1 ++ (nn, e) :: c2).
+    { unfold put_nth. rewrite (combine_set_nth_l _ _ e).
+      - rewrite Ec, <- Lc1. apply set_nth_app.
+      - rewrite <- (slots_of_snd hl A4). unfold slots_of. rewrite Ec, nth_error_map, <- Lc1, nth_error_app_mid. reflexivity. }
+    assert (Sr' : combine (put_nth (length s1) nn (hneigh hr)) (put_nth (length s1) ne2 (hbr hr)) = d1 ++ (nn, ne2) :: d2).
+    { unfold put_nth. rewrite combine_set_nth_both. rewrite Ed, <- Ld1. apply set_nth_app. }
+    (* transfer of the untouched child slots *)
+    assert (Tl : forall P' (cs : list (nat * nat)) (ls : list lslot),
+               (forall y, In y (sids ls) -> In y (sids l1) \/ In y (sids l2)) ->
+               (forall y, In y (seids ls) -> In y (seids l1) \/ In y (seids l2)) ->
+               (forall ce, In ce cs -> P' <> Some ce \/ P' = p) ->
+               Forall2 (slot_ok true h p l) cs ls -> P' = p -> Forall2 (slot_ok true h' P' l) cs ls).
+    { intros P' cs ls In1 In2 _ F ->. eapply Forall2_impl_r; [exact F|]. intros ce s Hs Hok.
+      destruct s as [[[e' ei'] ch']|]; [|exact Hok].
+      eapply GF_slot_transfer; [| | |exact Hok].
+      - intros y Hy. destruct (Dn y) as (X & Y & Z).
+        { destruct (In1 y (in_sids _ _ _ _ _ Hs Hy)); tauto. }
+        split; [apply GF_sub_in_n; exact X|split; assumption].
+      - intros y Hy. destruct (De y) as (X & Y).
+        { assert (In y (seids ls)) as Hy' by (destruct Hy as [<-|Hy]; [eapply in_seids_here|eapply in_seids]; eassumption).
+          destruct (In2 y Hy'); tauto. }
+        split; [apply GF_sub_in_e; exact X|exact Y].
+      - cbn in Hok. apply Hok. }
+    assert (Shch : shape true h' (Some (nn, ne2)) ch).
+    { unfold ch. apply shape_unfold. eexists. split; [exact Nr'|]. cbn [hname hcom hneigh hbr].
+      split; [exact B2|]. split; [exact B3|]. split; [unfold put_nth; rewrite !length_set_nth; exact B4|].
+      rewrite Sr'. apply Forall2_app; [|constructor; [reflexivity|]].
+      - eapply Forall2_impl_r; [exact G1|]. intros ce s Hs Hok.
+        destruct s as [[[e' ei'] ch']|]; [|exfalso].
+        + eapply GF_slot_transfer; [| | |exact Hok].
+          * intros y Hy. destruct (Dn y) as (X & Y & Z).
+            { right. right. rewrite sids_app. apply in_or_app. left. eapply in_sids; eassumption. }
+            split; [apply GF_sub_in_n; exact X|split; assumption].
+          * intros y Hy. destruct (De y) as (X & Y).
+            { right. right. rewrite seids_app. apply in_or_app. left. destruct Hy as [<-|Hy]; [eapply in_seids_here|eapply in_seids]; eassumption. }
+            split; [apply GF_sub_in_e; exact X|exact Y].
+          * destruct ce as [c0 e0']. cbn [slot_ok fst snd] in Hok. destruct Hok as (_ & E5 & _). intros [= E6 E7].
+            destruct (De e') as (X & _).
+            { right. right. rewrite seids_app. apply in_or_app. left. eapply in_seids_here. exact Hs. }
+            apply GF_sub_in_e, GF_old_edge in X. unfold ne2 in E7. lia.
+        + (* a second parent slot in r: excluded by lwf_sub *)
+          assert (Wch : lwf_sub ch).
+          { destruct (lwf_sub_lsubs lt None (Some (l, e)) ch (or_introl (rep_wf _ _ R))) as [X|X]; [|discriminate|exact X].
+            eapply lsubs_trans; [exact Hsub|]. unfold sub, sl. eapply lsubs_child. apply in_or_app. right. left. reflexivity. }
+          unfold ch in Wch. apply lwf_sub_iff in Wch. destruct Wch as [W1 _]. rewrite lnup_app in W1.
+          assert (1 <= lnup s1) by (destruct (In_nth_error _ _ Hs) as [j Hj]; unfold lnup; clear - Hs;
+            induction s1 as [|a t IHt]; [destruct Hs|destruct Hs as [->|Hs]; cbn; [lia|destruct a; cbn; [apply IHt; exact Hs|lia]]]).
+          unfold lnup in W1 at 2. cbn in W1. lia.
+      - eapply Forall2_impl_r; [exact G2'|]. intros ce s Hs Hok.
+        destruct s as [[[e' ei'] ch']|]; [|exfalso].
+        + eapply GF_slot_transfer; [| | |exact Hok].
+          * intros y Hy. destruct (Dn y) as (X & Y & Z).
+            { right. right. rewrite sids_app. apply in_or_app. right. cbn. eapply in_sids; eassumption. }
+            split; [apply GF_sub_in_n; exact X|split; assumption].
+          * intros y Hy. destruct (De y) as (X & Y).
+            { right. right. rewrite seids_app. apply in_or_app. right. cbn. destruct Hy as [<-|Hy]; [eapply in_seids_here|eapply in_seids]; eassumption. }
+            split; [apply GF_sub_in_e; exact X|exact Y].
+          * destruct ce as [c0 e0']. cbn [slot_ok fst snd] in Hok. destruct Hok as (_ & E5 & _). intros [= E6 E7].
+            destruct (De e') as (X & _).
+            { right. right. rewrite seids_app. apply in_or_app. right. cbn. eapply in_seids_here. exact Hs. }
+            apply GF_sub_in_e, GF_old_edge in X. unfold ne2 in E7. lia.
+        + assert (Wch : lwf_sub ch).
+          { destruct (lwf_sub_lsubs lt None (Some (l, e)) ch (or_introl (rep_wf _ _ R))) as [X|X]; [|discriminate|exact X].
+            eapply lsubs_trans; [exact Hsub|]. unfold sub, sl. eapply lsubs_child. apply in_or_app. right. left. reflexivity. }
+          unfold ch in Wch. apply lwf_sub_iff in Wch. destruct Wch as [W1 _]. rewrite lnup_app in W1.
+          assert (1 <= lnup s2) by (clear - Hs;
+            induction s2 as [|a t IHt]; [destruct Hs|destruct Hs as [->|Hs]; unfold lnup in *; cbn; [lia|destruct a; cbn; [apply IHt; exact Hs|lia]]]).
+          unfold lnup in W1 at 2. cbn in W1. unfold lnup in H. lia. }
+    (* the new node *)
+    assert (ShW : shape true h' (Some (l, e)) W).
+    { unfold W, graft_wrap. apply shape_unfold. eexists. split; [exact Nnn'|]. cbn [hname hcom hneigh hbr combine].
+      split; [reflexivity|]. split; [reflexivity|]. split; [reflexivity|].
+      constructor; [|constructor; [reflexivity|constructor; [|constructor]]].
+      - cbn [slot_ok fst snd lid]. split; [intros [= X _]; unfold n in X; lia|]. split; [reflexivity|]. split; [reflexivity|].
+        split; [eexists; split; [exact Ene'|]; repeat split|].
+        apply shape_unfold. eexists. split; [exact Nn'|]. cbn [hname hcom hneigh hbr combine]. repeat split.
+        constructor; [reflexivity|constructor].
+      - cbn [slot_ok fst snd]. split; [intros [= X _]; congruence|]. split; [reflexivity|]. split; [reflexivity|].
+        split; [eexists; split; [exact Ene2'|]; repeat split|]. exact Shch. }
+    (* the node l *)
+    unfold new. apply shape_unfold. eexists. split; [exact Nl'|]. cbn [hname hcom hneigh hbr].
+    split; [exact A2|]. split; [exact A3|]. split; [unfold put_nth; rewrite length_set_nth; exact A4|].
+    rewrite Sl'. apply Forall2_app; [|constructor].
+    - apply (Tl p c1 l1); tauto.
+    - cbn [slot_ok fst snd]. split.
+      { destruct p as [[pp pe]|]; [|discriminate]. intros [= X _].
+        destruct (Rep_parent h lt R pp pe sub Hsub) as (hm & ed' & P1 & _).
+        assert (pp < hnextn h) by (apply GF_old_node; apply (rep_nodes _ _ R); congruence). unfold nn in X. lia. }
+      split; [reflexivity|]. split; [reflexivity|]. split; [eexists; split; [exact Ee'|]; repeat split|]. exact ShW.
+    - apply (Tl p c2 l2); tauto.
+  Qed.
 End Graft.
+
+(** * where an edge sits in the br arrays of its two ends *)
+Lemma nth_br_slot hn j e : length (hneigh hn) = length (hbr hn) -> nth_error (hbr hn) j = Some e ->
+  exists x, nth_error (slots_of hn) j = Some (x, e).
+Proof.
+  intros Hl Hj. rewrite <- (slots_of_snd hn Hl), nth_error_map in Hj.
+  destruct (nth_error (slots_of hn) j) as [[x e']|]; [|discriminate]. cbn in Hj. injection Hj as ->. eauto.
+Qed.
+
+Lemma br_unique_child h lt p l nm cm sl hl e ei ch j0 : Rep h lt ->
+  In (p, LNode l nm cm sl) (lsubs None lt) -> alookup l (hnodes h) = Some hl ->
+  nth_error sl j0 = Some (Some (e, ei, ch)) ->
+  forall j, nth_error (hbr hl) j = Some e -> j = j0.
+Proof.
+  intros R Hsub Hl Hj0 j Hj.
+  pose proof (shape_lsubs _ _ _ _ _ _ (rep_shape _ _ R) Hsub) as Sh. pose proof Sh as Sh0.
+  apply shape_unfold in Sh. destruct Sh as [hl0 (A1 & A2 & A3 & A4 & A5)]. rewrite Hl in A1. injection A1 as <-.
+  destruct (nth_br_slot hl j e A4 Hj) as [x Hx]. destruct (Forall2_nth _ _ _ _ _ A5 Hx) as [s [Hs Hok]].
+  assert (Nd : NoDup (lids (LNode l nm cm sl))) by (eapply lsubs_NoDup; [exact (rep_nd _ _ R)|exact Hsub]).
+  pose proof (shape_NoDup_leids _ _ _ Sh0 Nd) as Ned. rewrite leids_eq in Ned.
+  destruct s as [[[e' ei'] ch']|]; cbn [slot_ok fst snd] in Hok.
+  - destruct Hok as (_ & -> & _). eapply (NoDup_flat_map_nth _ _ _ _ _ _ e Ned Hs Hj0); left; reflexivity.
+  - exfalso. subst p. destruct (Rep_parent h lt R x e _ Hsub) as (hm & ed & P1 & P2 & P3 & P4 & P5 & P6). cbn [lid] in P5.
+    destruct (Forall2_nth_r _ _ _ _ _ A5 Hj0) as [[c0 e0] [_ Ok0]]. cbn [slot_ok fst snd] in Ok0.
+    destruct Ok0 as (_ & E0 & B3 & [ed' (B4 & _ & _ & B7)] & _). subst e0. rewrite P3 in B4. injection B4 as <-.
+    eapply (lids_head_notin _ _ _ _ Nd); [eapply nth_error_In; exact Hj0|]. rewrite <- P5, B7, <- B3. apply lid_in_lids.
+Qed.
+
+Lemma br_unique_parent h lt l e r nmr cmr slr hr j1 : Rep h lt ->
+  In (Some (l, e), LNode r nmr cmr slr) (lsubs None lt) -> alookup r (hnodes h) = Some hr ->
+  nth_error slr j1 = Some None ->
+  forall j, nth_error (hbr hr) j = Some e -> j = j1.
+Proof.
+  intros R Hsub Hr Hj1 j Hj.
+  pose proof (shape_lsubs _ _ _ _ _ _ (rep_shape _ _ R) Hsub) as Sh.
+  apply shape_unfold in Sh. destruct Sh as [hr0 (A1 & A2 & A3 & A4 & A5)]. rewrite Hr in A1. injection A1 as <-.
+  destruct (nth_br_slot hr j e A4 Hj) as [x Hx]. destruct (Forall2_nth _ _ _ _ _ A5 Hx) as [s [Hs Hok]].
+  destruct (lwf_sub_lsubs lt None _ _ (or_introl (rep_wf _ _ R)) Hsub) as [E|W]; [discriminate|].
+  apply lwf_sub_iff in W. destruct W as [W1 _].
+  destruct s as [[[e' ei'] ch']|]; cbn [slot_ok fst snd] in Hok.
+  - exfalso. destruct Hok as (_ & -> & B3 & [ed' (B4 & _ & B6 & B7)] & _).
+    destruct (Rep_parent h lt R l e _ Hsub) as (hm & ed & P1 & P2 & P3 & P4 & P5 & P6). cbn [lid] in P5, P6.
+    rewrite P3 in B4. injection B4 as <-. apply P6. rewrite lids_eq. left. congruence.
+  - eapply (lnup_le1_nth slr); [lia|exact Hs|exact Hj1].
+Qed.
+
+(** * GraftTipOnEdge keeps the representation *)
+Theorem graft_new_tip_Rep h lt name e : Rep h lt -> alookup e (hedges h) <> None ->
+  exists h' lt', graft_new_tip name e h = HOk (hnextn h, hnexte h, S (hnexte h), S (hnextn h), h') /\ Rep h' lt'.
+Proof.
+  intros R He. apply (rep_edges _ _ R) in He.
+  destruct (in_leids_lsubs lt None e He) as (p & l & nm & cm & sl0 & ei & ch0 & Hsub & Hs).
+  destruct (in_split _ _ Hs) as [l1 [l2 Esl]]. subst sl0.
+  destruct ch0 as [r nmr cmr slr].
+  assert (Hsubr : In (Some (l, e), LNode r nmr cmr slr) (lsubs None lt)).
+  { eapply lsubs_trans; [exact Hsub|]. eapply lsubs_child. exact Hs. }
+  destruct (lwf_sub_lsubs lt None _ _ (or_introl (rep_wf _ _ R)) Hsubr) as [E|W]; [discriminate|].
+  pose proof W as W0. apply lwf_sub_iff in W. destruct W as [W1 Wk].
+  destruct (lnup_split slr) as [s1 [s2 Eslr]]; [lia|]. subst slr.
+  pose proof (shape_lsubs _ _ _ _ _ _ (rep_shape _ _ R) Hsub) as Sh. pose proof Sh as Sh0.
+  apply shape_unfold in Sh. destruct Sh as [hl (A1 & A2 & A3 & A4 & A5)].
+  pose proof (shape_lsubs _ _ _ _ _ _ (rep_shape _ _ R) Hsubr) as Shr. pose proof Shr as Shr0.
+  apply shape_unfold in Shr. destruct Shr as [hr (B1 & B2 & B3 & B4 & B5)].
+  destruct (shape_length _ _ _ _ _ _ _ _ Sh0 A1) as [La Lb]. destruct (shape_length _ _ _ _ _ _ _ _ Shr0 B1) as [Lc Ld].
+  rewrite app_length in La, Lb, Lc, Ld. cbn [length] in La, Lb, Lc, Ld.
+  assert (Hj0 : nth_error (l1 ++ Some (e, ei, LNode r nmr cmr (s1 ++ None :: s2)) :: l2) (length l1) = Some (Some (e, ei, LNode r nmr cmr (s1 ++ None :: s2))))
+    by apply nth_error_app_mid.
+  assert (Hj1 : nth_error (s1 ++ None :: s2) (length s1) = Some None) by apply nth_error_app_mid.
+  destruct (Forall2_nth_r _ _ _ _ _ A5 Hj0) as [[r0 e0] [Hc0 Ok0]]. cbn [slot_ok fst snd lid] in Ok0.
+  destruct Ok0 as (_ & E1 & E2 & [ed (E3 & E4 & E5 & E6)] & _). subst e0 r0.
+  destruct ed as [el er eii]. cbn [hleft hright hinfo] in E4, E5, E6. subst el er eii.
+  assert (Hbl : nth_error (hbr hl) (length l1) = Some e).
+  { rewrite <- (slots_of_snd hl A4), nth_error_map. unfold slots_of. rewrite Hc0. reflexivity. }
+  destruct (Forall2_nth_r _ _ _ _ _ B5 Hj1) as [[l0 e0] [Hc1 Ok1]]. cbn [slot_ok] in Ok1. injection Ok1 as <- <-.
+  assert (Hbr : nth_error (hbr hr) (length s1) = Some e).
+  { rewrite <- (slots_of_snd hr B4), nth_error_map. unfold slots_of. rewrite Hc1. reflexivity. }
+  assert (Il : index_of e (hbr hl) = Some (length l1)).
+  { apply index_of_unique; [exact Hbl|]. eapply br_unique_child; eassumption. }
+  assert (Ir : index_of e (hbr hr) = Some (length s1)).
+  { apply index_of_unique; [exact Hbr|]. eapply br_unique_parent; eassumption. }
+  assert (Nd : NoDup (lids (LNode l nm cm (l1 ++ Some (e, ei, LNode r nmr cmr (s1 ++ None :: s2)) :: l2))))
+    by (eapply lsubs_NoDup; [exact (rep_nd _ _ R)|exact Hsub]).
+  assert (Nlr : l <> r).
+  { intros ->. eapply (lids_head_notin _ _ _ _ Nd); [exact Hs|]. left. reflexivity. }
+  assert (Ll : l < hnextn h) by (apply (rep_fn _ _ R); eapply lsubs_in_lids with (sub := LNode l nm cm _); exact Hsub).
+  assert (Lr : r < hnextn h) by (apply (rep_fn _ _ R); eapply lsubs_in_lids with (sub := LNode r nmr cmr _); exact Hsubr).
+  assert (Le : e < hnexte h) by (apply (rep_fe _ _ R); exact He).
+  destruct (graft_eval h name e l r ei hl hr (length l1) (length s1) E3 A1 B1 Nlr Ll Lr Le Il Ir ltac:(lia) ltac:(lia) ltac:(lia))
+    as [h' [Ev D]].
+  exists h'. eexists. split; [exact Ev|].
+  set (sub := LNode l nm cm (l1 ++ Some (e, ei, LNode r nmr cmr (s1 ++ None :: s2)) :: l2)) in *.
+  set (new := LNode l nm cm (l1 ++ Some (e, halve ei, graft_wrap (hnextn h) (S (hnextn h)) (hnexte h) (S (hnexte h)) name ei (LNode r nmr cmr (s1 ++ None :: s2))) :: l2)).
+  pose proof (GF_in_new_n h lt name R p l nm cm l1 l2 e ei r nmr cmr s1 s2 Hsub) as InN. fold new in InN. fold sub in InN.
+  pose proof (GF_in_new_e h lt name R p l nm cm l1 l2 e ei r nmr cmr s1 s2 Hsub) as InE. fold new in InE. fold sub in InE.
+  destruct (GF_sub_nd h lt R p l nm cm l1 l2 e ei r nmr cmr s1 s2 Hsub) as [NdS NedS]. fold sub in NdS, NedS.
+  assert (SubN : forall y, In y (lids sub) -> In y (lids lt)) by (intros y Hy; eapply lsubs_sub_lids; eassumption).
+  assert (SubE : forall y, In y (leids sub) -> In y (leids lt)) by (intros y Hy; eapply lsubs_sub_leids; eassumption).
+  assert (Inl : In l (lids sub)) by (left; reflexivity).
+  assert (Inr : In r (lids sub)) by (eapply in_lids_child; [exact Hs|left; reflexivity]).
+  assert (Ine : In e (leids sub)) by (eapply in_leids_here; exact Hs).
+  apply (Rep_replace h h' lt l p sub new R Hsub eq_refl eq_refl).
+  - eapply GF_shape_new; eassumption.
+  - intros y Hy Hy'. eapply (GF_node_same h h' lt name R); try eassumption; intros ->; contradiction.
+  - intros y Hy Hy'. eapply (GF_edge_same h h' lt name R); try eassumption. intros ->. contradiction.
+  - (* well-formedness *)
+    intros Wsub. apply lwf_iff in Wsub. destruct Wsub as [X1 X2]. apply lwf_iff. split.
+    + rewrite lnup_app in *. exact X1.
+    + intros e' ei' ch' Hin. apply in_app_or in Hin. destruct Hin as [Hin|[[= <- <- <-]|Hin]].
+      * apply (X2 e' ei' ch'). apply in_or_app. left. exact Hin.
+      * apply lwf_sub_iff. split; [reflexivity|]. intros e2 ei2 ch2 [[= <- <- <-]|[E|[[= <- <- <-]|[]]]]; [|discriminate|exact W0].
+        apply lwf_sub_iff. split; [reflexivity|]. intros ? ? ? [E|[]]. discriminate.
+      * apply (X2 e' ei' ch'). apply in_or_app. right. right. exact Hin.
+  - intros Wsub. apply lwf_sub_iff in Wsub. destruct Wsub as [X1 X2]. apply lwf_sub_iff. split.
+    + rewrite lnup_app in *. exact X1.
+    + intros e' ei' ch' Hin. apply in_app_or in Hin. destruct Hin as [Hin|[[= <- <- <-]|Hin]].
+      * apply (X2 e' ei' ch'). apply in_or_app. left. exact Hin.
+      * apply lwf_sub_iff. split; [reflexivity|]. intros e2 ei2 ch2 [[= <- <- <-]|[E|[[= <- <- <-]|[]]]]; [|discriminate|exact W0].
+        apply lwf_sub_iff. split; [reflexivity|]. intros ? ? ? [E|[]]. discriminate.
+      * apply (X2 e' ei' ch'). apply in_or_app. right. right. exact Hin.
+  - exact (gd_root _ _ _ _ _ _ _ _ _ _ _ D).
+  - (* NoDup node ids of the new sub-node *)
+    unfold new. rewrite (GF_lids_new h name l nm cm l1 l2 e ei r nmr cmr s1 s2).
+    unfold sub in NdS. rewrite (GF_lids_sub l nm cm l1 l2 e ei r nmr cmr s1 s2) in NdS.
+    apply NoDup_cons_iff in NdS. destruct NdS as [N1 N2]. apply NoDup_app_iff in N2. destruct N2 as (N3 & N4 & N5).
+    apply NoDup_app_iff in N4. destruct N4 as (N6 & N7 & N8).
+    assert (Fresh : forall y, In y (l :: sids l1 ++ (r :: sids (s1 ++ None :: s2)) ++ sids l2) -> y < hnextn h).
+    { intros y Hy. apply (rep_fn _ _ R). apply SubN. unfold sub. rewrite (GF_lids_sub l nm cm l1 l2 e ei r nmr cmr s1 s2). exact Hy. }
+    constructor.
+    + intros Hi. rewrite !in_app_iff in Hi. cbn [In] in Hi. rewrite !in_app_iff in N1. cbn [In] in N1.
+      assert (l < hnextn h) by (apply Fresh; left; reflexivity). intuition lia.
+    + apply NoDup_app_iff. split; [exact N3|]. split.
+      * apply NoDup_app_iff. split; [|split; [exact N7|]].
+        -- constructor; [|constructor; [|exact N6]].
+           ++ intros [X|X]; [lia|]. assert (S (hnextn h) < hnextn h); [|lia]. apply Fresh. right. apply in_or_app. right. apply in_or_app. left. exact X.
+           ++ intros X. assert (hnextn h < hnextn h); [|lia]. apply Fresh. right. apply in_or_app. right. apply in_or_app. left. exact X.
+        -- intros y [<-|[<-|Hy]] Hy2.
+           ++ assert (S (hnextn h) < hnextn h); [|lia]. apply Fresh. right. apply in_or_app. right. apply in_or_app. right. exact Hy2.
+           ++ assert (hnextn h < hnextn h); [|lia]. apply Fresh. right. apply in_or_app. right. apply in_or_app. right. exact Hy2.
+           ++ exact (N8 y Hy Hy2).
+      * intros y Hy Hy2. apply in_app_or in Hy2. destruct Hy2 as [[<-|[<-|Hy2]]|Hy2].
+        -- assert (S (hnextn h) < hnextn h); [|lia]. apply Fresh. right. apply in_or_app. left. exact Hy.
+        -- assert (hnextn h < hnextn h); [|lia]. apply Fresh. right. apply in_or_app. left. exact Hy.
+        -- apply (N5 y Hy). apply in_or_app. left. exact Hy2.
+        -- apply (N5 y Hy). apply in_or_app. right. exact Hy2.
+  - intros y Hy. apply InN in Hy. destruct Hy as [->|[->|Hy]]; [right|right|left; exact Hy];
+      intros X; apply (rep_fn _ _ R) in X; lia.
+  - (* NoDup edge ids *)
+    unfold new. rewrite (GF_leids_new h name l nm cm l1 l2 e ei r nmr cmr s1 s2).
+    unfold sub in NedS. rewrite (GF_leids_sub l nm cm l1 l2 e ei r nmr cmr s1 s2) in NedS.
+    apply NoDup_app_iff in NedS. destruct NedS as (N3 & N4 & N5). apply NoDup_cons_iff in N4. destruct N4 as [N1 N2].
+    apply NoDup_app_iff in N2. destruct N2 as (N6 & N7 & N8).
+    assert (Fresh : forall y, In y (seids l1 ++ e :: seids (s1 ++ None :: s2) ++ seids l2) -> y < hnexte h).
+    { intros y Hy. apply (rep_fe _ _ R). apply SubE. unfold sub. rewrite (GF_leids_sub l nm cm l1 l2 e ei r nmr cmr s1 s2). exact Hy. }
+    apply NoDup_app_iff. split; [exact N3|]. split.
+    + constructor.
+      * intros Hi. apply in_app_or in Hi. destruct Hi as [[X|[X|X]]|X]; try lia.
+        -- apply N1. apply in_or_app. left. exact X.
+        -- apply N1. apply in_or_app. right. exact X.
+      * apply NoDup_app_iff. split; [|split; [exact N7|]].
+        -- constructor; [|constructor; [|exact N6]].
+           ++ intros [X|X]; [lia|]. assert (hnexte h < hnexte h); [|lia]. apply Fresh. apply in_or_app. right. right. apply in_or_app. left. exact X.
+           ++ intros X. assert (S (hnexte h) < hnexte h); [|lia]. apply Fresh. apply in_or_app. right. right. apply in_or_app. left. exact X.
+        -- intros y [<-|[<-|Hy]] Hy2.
+           ++ assert (hnexte h < hnexte h); [|lia]. apply Fresh. apply in_or_app. right. right. apply in_or_app. right. exact Hy2.
+           ++ assert (S (hnexte h) < hnexte h); [|lia]. apply Fresh. apply in_or_app. right. right. apply in_or_app. right. exact Hy2.
+           ++ exact (N8 y Hy Hy2).
+    + intros y Hy [<-|Hy2]; [apply (N5 e Hy); left; reflexivity|]. apply in_app_or in Hy2. destruct Hy2 as [[<-|[<-|Hy2]]|Hy2].
+      * assert (hnexte h < hnexte h); [|lia]. apply Fresh. apply in_or_app. left. exact Hy.
+      * assert (S (hnexte h) < hnexte h); [|lia]. apply Fresh. apply in_or_app. left. exact Hy.
+      * apply (N5 y Hy). right. apply in_or_app. left. exact Hy2.
+      * apply (N5 y Hy). right. apply in_or_app. right. exact Hy2.
+  - intros y Hy. apply InE in Hy. destruct Hy as [->|[->|Hy]]; [right|right|left; exact Hy];
+      intros X; apply (rep_fe _ _ R) in X; lia.
+  - (* node domain *)
+    intros y. rewrite InN. rewrite (gd_nodes _ _ _ _ _ _ _ _ _ _ _ D).
+    destruct (Nat.eqb_spec y (hnextn h)) as [->|N1]; [split; [tauto|discriminate]|].
+    destruct (Nat.eqb_spec y (S (hnextn h))) as [->|N2]; [split; [tauto|discriminate]|].
+    destruct (Nat.eqb_spec y l) as [->|N3]; [split; [tauto|discriminate]|].
+    destruct (Nat.eqb_spec y r) as [->|N4]; [split; [tauto|discriminate]|].
+    rewrite <- (rep_nodes _ _ R y). split.
+    + intros Hy. destruct (in_dec Nat.eq_dec y (lids sub)); tauto.
+    + intros [[X|[X|X]]|[X _]]; try lia; [apply SubN; exact X|exact X].
+  - intros y. rewrite InE. rewrite (gd_edges _ _ _ _ _ _ _ _ _ _ _ D).
+    destruct (Nat.eqb_spec y e) as [->|N1]; [split; [tauto|discriminate]|].
+    destruct (Nat.eqb_spec y (hnexte h)) as [->|N2]; [split; [tauto|discriminate]|].
+    destruct (Nat.eqb_spec y (S (hnexte h))) as [->|N3]; [split; [tauto|discriminate]|].
+    rewrite <- (rep_edges _ _ R y). split.
+    + intros Hy. destruct (in_dec Nat.eq_dec y (leids sub)); tauto.
+    + intros [[X|[X|X]]|[X _]]; try lia; [apply SubE; exact X|exact X].
+  - intros y. rewrite (gd_nextn _ _ _ _ _ _ _ _ _ _ _ D), (gd_nodes _ _ _ _ _ _ _ _ _ _ _ D).
+    destruct (Nat.eqb_spec y (hnextn h)) as [->|N1]; [lia|]. destruct (Nat.eqb_spec y (S (hnextn h))) as [->|N2]; [lia|].
+    destruct (Nat.eqb_spec y l) as [->|N3]; [lia|]. destruct (Nat.eqb_spec y r) as [->|N4]; [lia|].
+    intros Hy. apply (rep_nodes _ _ R), (rep_fn _ _ R) in Hy. lia.
+  - intros y. rewrite (gd_nexte _ _ _ _ _ _ _ _ _ _ _ D), (gd_edges _ _ _ _ _ _ _ _ _ _ _ D).
+    destruct (Nat.eqb_spec y e) as [->|N1]; [lia|]. destruct (Nat.eqb_spec y (hnexte h)) as [->|N2]; [lia|].
+    destruct (Nat.eqb_spec y (S (hnexte h))) as [->|N3]; [lia|].
+    intros Hy. apply (rep_edges _ _ R), (rep_fe _ _ R) in Hy. lia.
+Qed.
+
+Theorem graft_new_tip_good h name e : Good h -> alookup e (hedges h) <> None ->
+  exists tip ne ne2 nn h', graft_new_tip name e h = HOk (tip, ne, ne2, nn, h') /\ Good h'.
+Proof.
+  intros G He. destruct (Good_Rep h G) as [lt R].
+  destruct (graft_new_tip_Rep h lt name e R He) as (h' & lt' & Ev & R').
+  do 5 eexists. split; [exact Ev|]. eapply Rep_Good. exact R'.
+Qed.
